@@ -38,9 +38,9 @@ ASSUMPTIONS = [
 REPORT_COUNTERS = ["cases", "controlled_schedules", "sweep_schedules", "double_preemption_schedules", "random_schedules",
                    "raw_races", "scheduling_points", "switches_forced", "lock_handoffs", "thread_outcomes_compared",
                    "post_run_probe_vectors", "scn_first_call", "scn_miss_same", "scn_miss_diff", "scn_next_chain",
-                   "scn_dependent", "three_thread_schedules", "timeouts"]
+                   "scn_dependent", "scn_kwonly", "calls_with_keywords", "three_thread_schedules", "timeouts"]
 
-SCENARIOS = ["first_call", "miss_same", "miss_diff", "next_chain", "dependent"]
+SCENARIOS = ["first_call", "miss_same", "miss_diff", "next_chain", "dependent", "kwonly"]
 STRATEGIES = ["sweep", "sweep", "double", "random", "raw"]
 
 
@@ -51,7 +51,7 @@ def plan(tier):
             "timeout_s": 1800 if tier == "quick" else 14000,
             "min": {"controlled_schedules": 2_000, "sweep_schedules": 1_000, "random_schedules": 200, "raw_races": 500,
                     "switches_forced": 1_500, "scn_first_call": 5, "scn_miss_same": 5, "scn_miss_diff": 5,
-                    "scn_next_chain": 5, "scn_dependent": 5}}
+                    "scn_next_chain": 5, "scn_dependent": 5, "scn_kwonly": 5, "calls_with_keywords": 15}}
 
 
 class TVF(PVF):
@@ -103,15 +103,23 @@ def gen_case(rng, params, idx):
     hier = gen.gen_hierarchy(rng, rng.randint(2, 4), attrs=False)
     dep = 0.45 if scn == "dependent" else 0.1
     kinds = ("leaf", "next", "next", "nextalt") if scn == "next_chain" else ("leaf", "leaf", "next", "rec")
-    spec = gen.gen_program(rng, hier=hier, npos=rng.choice([1, 1, 2]), nmeth=(3, 6), dep=dep, kinds=kinds, kw=0.0,
-                           other_arity=0.0, catchall=0.8)
+    # kwonly: methods with (optional) keyword-only parameters; the threads pass different sets of keywords
+    pk = 0.8 if scn == "kwonly" else 0
+    spec = gen.gen_program(rng, hier=hier, npos=rng.choice([1, 1, 2]), nmeth=(3, 6), dep=dep, kinds=kinds,
+                           kw=0.9 if scn == "kwonly" else 0.0, other_arity=0.0, catchall=0.8)
+    if scn == "kwonly":
+        for m in spec["methods"]:
+            for k in m.get("kw", []):
+                k["req"] = False
     vals = gen.values_for(hier)
     cg = gen.CallGen(spec, vals)
-    c0 = cg.call(rng, p_kw=0)
-    c1 = dict(c0) if scn in ("miss_same", "dependent") and rng.random() < 0.7 else cg.call(rng, p_kw=0)
-    c2 = cg.call(rng, p_kw=0)
-    spec.update(scenario=scn, strategy=strat, calls=[c0, c1, c2], warm=cg.call(rng, p_kw=0),
-                probes=[cg.call(rng, p_kw=0) for _ in range(6)], seed=rng.randrange(1 << 30),
+    c0 = cg.call(rng, p_kw=pk)
+    c1 = dict(c0) if scn in ("miss_same", "dependent") and rng.random() < 0.7 else cg.call(rng, p_kw=pk)
+    if scn == "kwonly" and rng.random() < 0.5:
+        c1 = dict(c1, kw={})          # one thread passes keywords, the other none
+    c2 = cg.call(rng, p_kw=pk)
+    spec.update(scenario=scn, strategy=strat, calls=[c0, c1, c2], warm=cg.call(rng, p_kw=pk),
+                probes=[cg.call(rng, p_kw=pk) for _ in range(6)], seed=rng.randrange(1 << 30),
                 sweep_stride=params["sweep_stride"], nrandom=params["random"], nraw=params["raw"])
     return spec
 
@@ -120,11 +128,11 @@ def _mk(spec, env):
     prog = Program(spec, env=env, tag="c19", vf=TVF())
     if spec["scenario"] != "first_call":
         prog.ov.compile()
-        if spec["scenario"] in ("miss_same", "miss_diff", "next_chain", "dependent"):
+        if spec["scenario"] in ("miss_same", "miss_diff", "next_chain", "dependent", "kwonly"):
             prog.vf.reset(())
             a = prog.args(spec["warm"])
             try:
-                prog.fn(*a[0])
+                prog.fn(*a[0], **a[1])
             except Exception:  # noqa: BLE001
                 pass
     return prog
@@ -135,7 +143,7 @@ def _body(prog, call):
 
     def run():
         prog.vf.reset(alt)
-        return prog.fn(*pos)
+        return prog.fn(*pos, **kw)
     return run
 
 
@@ -192,6 +200,7 @@ def check_case(spec, res):
     nthreads = 3 if strat in ("random", "raw") and rng.random() < 0.4 else 2
     calls = spec["calls"][:nthreads]
     seq, ref = _sequential(spec, env, calls)
+    res.count("calls_with_keywords", sum(1 for c in calls if c.get("kw")))
 
     def judge(results, prog, label, detail, s=None):
         got = [_norm_result(r) for r in results]
